@@ -132,6 +132,16 @@ def main():
         for b in rr["result"]["bad"]:
             ck.violation("exchange-acceptance", b, key={"site": "chain_swap_acceptance"})
 
+    # ---- (c2) random_choice realises the probability vectors (inverse CDF against the same uniform draw) ----
+    for mode in ("py", "jit"):
+        rr = pool.map_tasks("impl.c01", [{"op": "choice", "seed": ck.seed + 3, "n": 300 if quick else 3000}], mode=mode)[0]
+        if not rr["ok"]:
+            ck.violation("choice-error", {"mode": mode, "error": rr["error"]}, key={"site": "random_choice", "mode": mode})
+        else:
+            ck.evaluations += rr["result"]["n"]
+            for b in rr["result"]["bad"]:
+                ck.violation("random-choice", dict(b, mode=mode), key={"site": "random_choice"})
+
     # ---- (d) recorded fits ---------------------------------------------------------------------------
     ft = []
     k = 0
